@@ -193,7 +193,7 @@ Definition observer_effect_prefixes : list string :=
     "store model_times"; "call StateData"; "call logger."; "call display.row"; "call inner_display";
     "call path.append"; "call path_times.append"; "call np.vstack"; "call np.hstack";
     "call result._set_path"; "call self.estimate_rcond"; "call cols.append"; "call AttrColumn"; "call RCondFormatter";
-    "call StateAttr"; "expr "; "deferred " ].
+    "call StateAttr"; "expr "; "deferred "; "store iterate"; "call self.display.row" ].
 Definition observer_effect_ok (f : string) (e : string) : bool :=
   any_prefix observer_effect_prefixes e
   || (String.eqb e "return" && mem f ["StepController.display_step"; "StepController.compute_step"]).
